@@ -148,6 +148,32 @@ theorem c05_table_members_unique : nodupNat (dataMems particleSize table) = true
 theorem c05_table_elems :
     elemSizesOK table rowElems = true ∧ (rowElems.all (fun p => elemOK p.2)) = true := by decide +kernel
 
+/-! ### callbacks: the reminder to re-attach them -/
+
+/-- **the warning is raised exactly when a flagged callback was set at save time** (any table, any simulation):
+    with the flag the writer stores (`fpFlagOf`: some member of the flag list is non-NULL), loading the saved stream
+    raises `pointers` iff some flagged callback is set, and nothing else -/
+theorem c05_callback_warning {psz : Nat} {sp : Special} {tbl : List Desc} (ok : TableOK psz sp tbl)
+    (s init : Sim) (hwf : WF psz tbl s) (flagged : List Nat) (isSet : Nat → Bool) :
+    (decodeFields psz sp tbl (init, []) (encode psz sp tbl s (fpFlagOf flagged isSet))).2 =
+      (if flagged.any isSet then [.pointers] else []) := by
+  rw [decode_encode ok s init _ hwf]
+  rfl
+
+/-- every function-pointer member of struct reb_simulation / reb_integrator_* (a callback the user must re-attach)
+    is in the flag condition of the writer, or exempt with a reason (key_callback, extras_cleanup), or a recorded gap.
+    A new callback member that is forgotten in output.c fails this theorem (this is how C05-N12 would have been
+    found statically). -/
+theorem c05_table_callbacks_flagged : callbacksFlagged members fpFlagged fpExempt fpGaps = true := by decide +kernel
+
+/-- full strength (no gaps) is false on the unchanged tree: the unflagged, non-exempt callbacks are exactly the
+    recorded gap `ri_mercurius.L` (C05-N16); provable with `fpGaps = []` once it is repaired -/
+theorem c05_table_callbacks_flagged_partial : unflaggedCallbacks members fpFlagged fpExempt ⊆ fpGaps := by decide +kernel
+
+/-- the extraction of the flag condition found the members it says (and at least the eight of the original code) -/
+theorem c05_table_callbacks_counts : fpFlagged.length = fpFlaggedCount ∧ 8 ≤ fpFlaggedCount ∧
+    fpFlagged.all (fun i => members.any (fun m => m.idx == i && m.kind == .fptr)) = true := by decide +kernel
+
 /-! ### which code reads not-persisted state (generated read sets, src/*.c) -/
 
 /-- an access (translation unit, member) is fine if the member is persisted, or cannot influence the trajectory,
